@@ -131,6 +131,11 @@ Definition lay_names (db other : databox) (sel_names : option (list string)) : l
   | Some l => filter (fun n => dhas db n && dhas other n) (nodup string_dec l)
   end.
 
+(* Series.overlay trims its result in place, and a series trimmed to nothing is reset (description
+   included); Series.underlay only copies start and data of the result into the receiver *)
+Definition lay_desc (under : bool) (r : series) (ds : string) : string :=
+  if under then ds else match s_start r with Some _ => ds | None => ""%string end.
+
 Definition lay_step (under : bool) (other : databox) (acc : res databox) (n : string) : res databox :=
   match acc with
   | Err e => Err e
@@ -142,7 +147,7 @@ Definition lay_step (under : bool) (other : databox) (acc : res databox) (n : st
           | Some (INon (ESer _ o)) =>
               if negb (sfreq s =? sfreq o) then Ok d else
               match (if under then underlay A s o else overlay A s o) with
-              | Ok r => Ok (dset d n (ISer ds r))
+              | Ok r => Ok (dset d n (ISer (lay_desc under r ds) r))
               | Err _ => Err 2
               end
           | _ => Err 2
